@@ -141,6 +141,115 @@ def check(ctx):
         ctx.check(not walks_datum, "C03.R6", fi.qualname, None, f"{fi.name} calls itself on the elements of its argument (a list / dict of the input): its depth is the depth of the datum, not of the type; with uniqueItems on List[Any], 2000 nested lists raise RecursionError out of deserialize", fi, rec[0], detail="iterative, or depth-bounded")
     ctx.check(n6 >= 1, "C03.R6", f"{DESER_MOD}:recursive-helpers", None, "no self-recursive helper found in the methods module (rule instance vanished)", None, None, nontrivial=False)
 
+    # ---- R7: the library's own (standard types) deserializers
+    ctx.rule("C03.R7", "converters registered by the library itself for standard types (apischema/std_types.py) turn every exception the wrapped stdlib callable raises on a wrong value into ValidationError: catch_value_error for the ValueError family, an explicit handler otherwise", floor=5)
+    # what the stdlib callables raise on an arbitrary value of the source type (frozen: not derivable from this repository)
+    STD_RAISES = {"b64decode": {"ValueError"}, "cls.fromisoformat": {"ValueError"}, "Decimal": {"ValueError"}, "deque": set(), "re.compile": {"re.error", "RecursionError", "OverflowError"},
+                  "cls": {"ValueError"}}
+    std = model.mod("apischema.std_types")
+    regs = []
+    for n in ast.walk(std.tree):
+        if isinstance(n, ast.Call) and dotted(n.func) == "deserializer" and n.args and isinstance(n.args[0], ast.Call) and dotted(n.args[0].func) == "Conversion" and n.args[0].args:
+            regs.append((n, n.args[0].args[0]))
+    local_defs = {st.targets[0].id: st.value for st in ast.walk(std.tree) if isinstance(st, ast.Assign) and len(st.targets) == 1 and isinstance(st.targets[0], ast.Name)}
+    for call, conv in regs:
+        if isinstance(conv, ast.Name) and conv.id in local_defs:
+            conv = local_defs[conv.id]
+        wrapped = isinstance(conv, ast.Call) and dotted(conv.func) == "catch_value_error"
+        inner = conv.args[0] if wrapped and conv.args else conv
+        name = dotted(inner) or norm(inner)
+        if name not in STD_RAISES:
+            ctx.undecided("C03.R7", f"std_types: converter `{name}` is not in the table of stdlib callables (what does it raise on a wrong value?)")
+            continue
+        left = set(STD_RAISES[name]) - ({"ValueError"} if wrapped else set())
+        ctx.check(not left, "C03.R7", f"apischema.std_types:deserializer({name})", None,
+                  f"`{short(call, 70)}`: `{name}` raises {sorted(left)} on a wrong value and nothing converts it: deserialize lets it escape instead of raising ValidationError",
+                  None, None, detail=("catch_value_error(" + name + ")") if wrapped else f"{name} raises nothing on its source type")
+    for fi in model.funcs_in_module("apischema.std_types"):
+        if not any((dotted(d) or "") == "deserializer" for d in fi.node.decorator_list):
+            continue
+        for c in walk_no_nested(fi.node):
+            if isinstance(c, ast.Call) and (dotted(c.func) or "") in STD_RAISES and STD_RAISES[dotted(c.func)]:
+                want = STD_RAISES[dotted(c.func)]
+                tries = [t for t in walk_no_nested(fi.node) if isinstance(t, ast.Try) and any(x is c for b in t.body for x in ast.walk(b))]
+                caught = set()
+                for t in tries:
+                    for h in t.handlers:
+                        hs = [h.type] if not isinstance(h.type, ast.Tuple) else h.type.elts
+                        if any(isinstance(r, ast.Raise) and "ValidationError" in norm(r) for r in ast.walk(h)):
+                            caught |= {dotted(x) or "" for x in hs if x is not None}
+                        if h.type is None:
+                            caught |= want
+                if "Exception" in caught:
+                    caught |= want
+                left = want - caught
+                ctx.check(not left, "C03.R7", f"{fi.qualname}:{dotted(c.func)}", None,
+                          f"`{short(c, 50)}` raises {sorted(left)} on some strings ({'thousands of nested groups' if 'RecursionError' in left else 'an invalid value'}) and no handler turns it into ValidationError",
+                          fi, c, detail=f"except {sorted(want)} -> ValidationError")
+    as_str_f = model.func("apischema.conversions.converters.as_str")
+    ctx.check("catch_value_error(cls)" in norm(as_str_f.node), "C03.R7", as_str_f.qualname, None, "as_str registers the class constructor without catch_value_error: UUID('x') / IPv4Address('x') raise ValueError out of deserialize", as_str_f, as_str_f.node, detail="catch_value_error(cls)")
+
+    # ---- R8: shape of the registered dependent_required entries
+    ctx.rule("C03.R8", "dependent_required registers (field, collection of fields) pairs: what get_dependent_required maps get_field_name over is a flat collection of field designators in both notations (mapping and group)", floor=2)
+    dr = model.func("apischema.dependencies.dependent_required")
+    appends = [c for c in ast.walk(dr.node) if isinstance(c, ast.Call) and isinstance(c.func, ast.Attribute) and c.func.attr == "append" and c.args and isinstance(c.args[0], ast.Tuple) and len(c.args[0].elts) == 2]
+    ctx.require(len(appends) >= 2, "dependent_required: the (field, required) registrations were not found")
+    loop_of = {}
+    for lp in ast.walk(dr.node):
+        if isinstance(lp, ast.For):
+            for x in ast.walk(lp):
+                loop_of.setdefault(id(x), []).append(lp)
+
+    def depth(e, env):
+        """nesting depth of the collection denoted by e: 0 = a field designator, 1 = collection of designators, ..."""
+        if isinstance(e, ast.Name):
+            return env.get(e.id)
+        if isinstance(e, ast.Subscript):
+            d = depth(e.value, env)
+            if d is None:
+                return None
+            return d if isinstance(e.slice, ast.Slice) else d - 1
+        if isinstance(e, ast.BinOp) and isinstance(e.op, ast.Add):
+            a, b = depth(e.left, env), depth(e.right, env)
+            return a if a == b else None
+        if isinstance(e, (ast.List, ast.Tuple, ast.Set)):
+            ds = set()
+            for x in e.elts:
+                ds.add(depth(x.value, env) if isinstance(x, ast.Starred) else (None if depth(x, env) is None else depth(x, env) + 1))
+            return ds.pop() if len(ds) == 1 else None
+        if isinstance(e, (ast.ListComp, ast.SetComp, ast.GeneratorExp)) and len(e.generators) == 1 and isinstance(e.generators[0].target, ast.Name):
+            src = depth(e.generators[0].iter, env)
+            if src is None:
+                return None
+            d = depth(e.elt, {**env, e.generators[0].target.id: src - 1})
+            return None if d is None else d + 1
+        if isinstance(e, ast.Call) and dotted(e.func) in ("list", "tuple", "set", "frozenset") and len(e.args) == 1:
+            return depth(e.args[0], env)
+        return None
+    for c in appends:
+        env = {}
+        for lp in loop_of.get(id(c), []):
+            it, tg = lp.iter, lp.target
+            if norm(it) == "fields.items()" and isinstance(tg, ast.Tuple):
+                env[norm(tg.elts[1])] = 1       # Mapping[field, Collection[field]]
+                env[norm(tg.elts[0])] = 0
+            elif norm(it) in ("map(list, groups)", "groups") and isinstance(tg, ast.Name):
+                env[tg.id] = 1                  # each group is a collection of fields
+            elif isinstance(it, ast.Call) and dotted(it.func) == "enumerate" and isinstance(tg, ast.Tuple) and len(tg.elts) == 2:
+                d = depth(it.args[0], env)
+                if d is not None:
+                    env[norm(tg.elts[1])] = d - 1
+        req = c.args[0].elts[1]
+        d = depth(req, env)
+        if d is None:
+            ctx.undecided("C03.R8", f"dependent_required: shape of `{norm(req)}` not inferred")
+            continue
+        ctx.check(d == 1, "C03.R8", f"{dr.qualname}:required={norm(req)[:40]}", None,
+                  f"`{short(c, 70)}` registers a collection nested {d} deep where the readers expect the required fields themselves: get_field_name is applied to a list, and every later deserialize / schema call for the class raises TypeError",
+                  dr, c, detail="flat collection of field designators")
+    gdr = model.func("apischema.dependencies.get_dependent_required")
+    ctx.check("map(get_field_name, required)" in norm(gdr.node) or "get_field_name(req" in norm(gdr.node), "C03.R8", f"{gdr.qualname}:reader", None, "get_dependent_required no longer maps get_field_name over the registered collection (reader of the shape changed)", gdr, gdr.node, detail="map(get_field_name, required)")
+
     # ---- R5: build-time name tables
     ctx.rule("C03.R5", "names from dependent_required are looked up in the operation's field table only under a membership guard (no KeyError for fields skipped for the operation)", floor=3)
     nametable_rule(ctx, "C03.R5")
@@ -372,6 +481,13 @@ def fixtures(ctx):
 
 
 def mutants(mb):
+    mb.add_text("dep-req-group-nested", "apischema/dependencies.py", "                dep_req.append((field, group[:i] + group[i + 1 :]))\n", "                dep_req.append((field, [group[:i], group[i + 1 :]]))\n", "C03.R8", "required=")
+    mb.add_text("neg-dep-req-group-comprehension", "apischema/dependencies.py", "                dep_req.append((field, group[:i] + group[i + 1 :]))\n", "                dep_req.append((field, [other for other in group if other is not field]))\n", negative=True)
+    mb.add_text("bytes-unwrapped", "apischema/std_types.py", "Conversion(catch_value_error(b64decode), source=str, target=bytes)", "Conversion(b64decode, source=str, target=bytes)", "C03.R7", "b64decode")
+    mb.add_text("pattern-only-re-error", "apischema/std_types.py", "    except (re.error, RecursionError, OverflowError) as err:\n", "    except re.error as err:\n", "C03.R7", "_compile")
+    mb.add_text("isoformat-unwrapped", "apischema/std_types.py", "    fromisoformat = catch_value_error(cls.fromisoformat)  # type: ignore\n", "    fromisoformat = cls.fromisoformat  # type: ignore\n", "C03.R7", "fromisoformat")
+    mb.add_text("as-str-unwrapped", "apischema/conversions/converters.py", "    deserializer(Conversion(catch_value_error(cls), source=str, target=cls))\n", "    deserializer(Conversion(cls, source=str, target=cls))\n", "C03.R7", "as_str")
+    mb.add_text("neg-pattern-catch-all", "apischema/std_types.py", "    except (re.error, RecursionError, OverflowError) as err:\n", "    except Exception as err:\n", negative=True)
     M = "apischema/deserialization/methods.py"
     C = "apischema/deserialization/coercion.py"
     Tm = "apischema/json_schema/types.py"
